@@ -4,7 +4,9 @@ Domain : strings from the URI grammar and its near-misses (structured generator 
          expectation for the clean subset, plus free-form near-miss strings), pairs of different locations.
 Oracle : parse -> str -> parse is accepted, equal (field by field, not only via __eq__), str is a fixed point,
          equal URIs hash equal, different locations compare unequal, and the URI survives the four serializers,
-         the Proxy state path and NameServer.register/lookup.
+         the Proxy state path and NameServer.register/lookup; and (ns-live shards) registered with and retrieved from a name
+         server behind a real daemon by a remote client (memory and sqlite back-end, every serializer, special hosts such as
+         0.0.0.0 / localhost / :: that a name server might be tempted to rewrite for the asking client).
 """
 import copy
 
@@ -425,7 +427,98 @@ def check_pair(case):
     return viols
 
 
+# ------------------------------------------------------------------------------------------------
+# a name server behind a real daemon: what a REMOTE client stores and gets back
+# ------------------------------------------------------------------------------------------------
+_nslive = {}
+SPECIAL_HOSTS = ["0.0.0.0", "localhost", "127.0.0.1", "127.0.0.2", "255.255.255.255", "0", "00.0.0.0", "0.0.0.0.", "::", "::1", "::ffff:0.0.0.0", "",
+                 "LOCALHOST", "any", "*", "broadcasthost", "ip6-localhost"]
+
+
+def _ns_setup(backend):
+    from vlib import live
+    if _nslive.get("backend") != backend:
+        _ns_teardown()
+    if "served" not in _nslive:
+        import os
+        import tempfile
+        from Pyro5 import nameserver
+        live.quiet_logs()
+        tmp = None
+        if backend == "sql":
+            tmp = tempfile.mkdtemp(prefix="c19ns_", dir="/var/tmp")
+            ns = nameserver.NameServer(nameserver.SqlStorage(os.path.join(tmp, "ns.sqlite")))
+        else:
+            ns = nameserver.NameServer()
+        srv = live.Served("thread")
+        srv.daemon.register(ns, "Pyro.NameServer")
+        _nslive.update(backend=backend, served=srv, ns=ns, tmp=tmp, proxies={})
+    return _nslive
+
+
+def _ns_teardown():
+    if "served" in _nslive:
+        import shutil
+        for p in _nslive["proxies"].values():
+            p._pyroRelease()
+        _nslive["served"].stop()
+        try:
+            _nslive["ns"].storage.close()
+        except Exception:
+            pass
+        if _nslive.get("tmp"):
+            shutil.rmtree(_nslive["tmp"], ignore_errors=True)
+    _nslive.clear()
+
+
+def check_ns_live(case):
+    """register the uri with a name server in another daemon (as uri object and as text, every serializer), ask for it through
+    lookup / list / yplookup over the wire: the remote client must get a uri that equals the one stored"""
+    from vlib import live
+    from Pyro5 import core
+    viols = []
+    try:
+        u = core.URI(case["s"])
+    except Exception:
+        return viols
+    t = str(u)
+    try:
+        if core.URI(t) != u:
+            return viols          # (text form does not parse back: check_uri_string reports that)
+    except Exception:
+        return viols
+    L = _ns_setup(case.get("backend", "memory"))
+    ser = case.get("ser", "serpent")
+    p = L["proxies"].get(ser)
+    if p is None:
+        p = L["proxies"][ser] = live.proxy(L["served"].uri("Pyro.NameServer"), serializer=ser)
+    feat = _feature(u)
+
+    def V(failure, what):
+        viols.append(Violation("C19:%s:nameserver-live:%s" % (feat, failure), "%r: %s" % (case["s"], what)))
+    try:
+        for n, how in (("live.obj", u), ("live.text", t)):
+            p.register(n, "PYRO:decoy@decoy.host:1", safe=False, metadata=["tag"])
+            p.lookup(n)
+            p.register(n, how, safe=False, metadata=["tag"])
+            got = [("lookup", p.lookup(n)), ("list", p.list(prefix=n).get(n)), ("yplookup", (p.yplookup(meta_all=["tag"]).get(n) or (None,))[0])]
+            if ser != "marshal":
+                # (marshal carries a uri object only as the top-level value of a message, not inside the (uri, tags) pair)
+                got.append(("lookup+metadata", p.lookup(n, return_metadata=True)[0]))
+            for where, back in got:
+                back = core.URI(back) if isinstance(back, str) else back
+                if back is None or _fields(back) != _fields(u) or not (back == u):
+                    V("differs", "%s of %s through the %s proxy gives %r, registered %r" % (where, n, ser, back if back is None else _fields(back), _fields(u)))
+                    return viols
+    except Exception as x:
+        V("raises", "remote name server path raised %r" % (x,))
+        _ns_teardown()
+    return viols
+
+
 def run_case(case):
+    if case.get("layer") == "ns-live":
+        return check_ns_live(case)
     if "pair" in case:
         return check_pair(case)
     viols, _acc = check_uri_string(case["s"])
@@ -444,6 +537,8 @@ def _nontrivial(case):
 
 
 def _labels(case):
+    if case.get("layer") == "ns-live":
+        return ("nameserver-behind-a-daemon", "ns-backend:" + case.get("backend", "memory"), "ns-client-serializer:" + case.get("ser", "serpent"))
     if "pair" in case:
         return ("pair",)
     from Pyro5 import core
@@ -456,7 +551,8 @@ def _labels(case):
 
 
 def SHARDS(tier):
-    return [{}] if tier == "quick" else [{} for _ in range(16)] + [{"part": "atheris", "k": k} for k in range(2)]
+    nslive = [{"part": "ns-live", "backend": b} for b in ("memory", "sql")]
+    return [{}] + nslive if tier == "quick" else [{} for _ in range(16)] + [{"part": "atheris", "k": k} for k in range(2)] + nslive * 2
 
 
 def run_atheris(ctx):
@@ -504,9 +600,31 @@ def run_atheris(ctx):
         shutil.rmtree(tmp, ignore_errors=True)
 
 
+@st.composite
+def ns_live_case(draw, backend):
+    c = draw(case_strategy())
+    if "pair" in c or draw(st.integers(0, 3)) == 0:
+        # locations a name server might be tempted to "improve" for the asking client
+        proto = draw(st.sampled_from(["PYRO", "PYRONAME", "PYROMETA"]))
+        h = draw(st.sampled_from(SPECIAL_HOSTS))
+        c = {"s": "%s:%s@%s:%s" % (proto, "obj" if proto != "PYROMETA" else "a,b", "[%s]" % h if ":" in h else h, draw(st.sampled_from(["0", "1", "9090", "65535"])))}
+    return {"layer": "ns-live", "s": c["s"], "backend": backend, "ser": draw(st.sampled_from(["serpent", "json", "marshal", "msgpack"]))}
+
+
 def run(ctx):
     if ctx.shard.get("part") == "atheris":
         return run_atheris(ctx)
+    if ctx.shard.get("part") == "ns-live":
+        backend = ctx.shard["backend"]
+        try:
+            for h in SPECIAL_HOSTS:
+                for ser in ("serpent", "msgpack"):
+                    case = {"layer": "ns-live", "s": "PYRO:obj@%s:4444" % ("[%s]" % h if ":" in h else h), "backend": backend, "ser": ser}
+                    ctx.observe(case, run_case(case), True, _labels(case) + ("special-host-sweep",))
+            ctx.search(ns_live_case(backend), run_case, ctx.n(500, 4000), nontrivial=_nontrivial, labels=_labels, name="nslive" + backend, max_rounds=3)
+        finally:
+            _ns_teardown()
+        return
     from Pyro5 import config
     assert config.NS_PORT == NS_PORT
     n = ctx.n(6000, 40000)
